@@ -834,9 +834,9 @@ func runC08(c *Ctx) {
 				nLockedRet++
 				key := name + "|return under flag=" + boolStr(val)
 				if name == "List" {
-					okList := len(r.Results) == 2
+					okList := len(r.Results) >= 2 && errorResultIndex(fn) >= 1
 					if okList {
-						for _, lf := range w.Leaves(r.Results[1], r) {
+						for _, lf := range w.Leaves(r.Results[errorResultIndex(fn)], r) {
 							if !isNilConst(lf.Val) {
 								okList = false
 							}
